@@ -3,7 +3,7 @@ package main
 func init() {
 	register(&Check{
 		ID: "C02", Level: "exploration",
-		NCases: func(t string) int { return tier(t, 160, 5000) },
+		NCases: func(t string) int { return tier(t, 160, 2000) },
 		Run:    runC02,
 		Rule: "case = (FileIO|MMap x StartFileLoadingMode x SegmentSize 150..600, seeded single-bucket history of Put/PutWithTimestamp/Delete transactions with Close/Open every ~15 transactions) in HintBPTSparseIdxMode against the ordered-map model; " +
 			"Get of every key, GetAll, RangeScan, PrefixScan (ScanNoLimit and a huge positive limit) compared after commits and after every reopen, including reads of a never-written bucket; " +
